@@ -49,3 +49,12 @@ def _(edges):
     invariant(0, forall(str, str, lambda t1, t2: implies(t1 in rv and t2 in rv and t1 != t2, not same(rv[t1], rv[t2]))))
     loop_modifies(0, values_of(rv))
     modifies()
+
+
+@contract("cascade.low.core:JobInstance.outputs_of")
+def _(self, task_id):
+    schema = self.tasks[task_id].definition.output_schema
+    # "records for every task its ... outputs exactly as the job ... states": the outputs of a task are exactly (task, o) for the declared output names o
+    raises(KeyError, when=task_id not in self.tasks, tag="unknown-task-is-an-error")
+    ensures(forall(DatasetId, lambda d: (d in result()) == (d.task == task_id and d.output in schema)), tag="outputs-exactly-as-declared", top=True)
+    modifies()
